@@ -49,7 +49,9 @@ MANIFEST = dict(
           "(filter for a constraint, its first element for a non-range; Maven/PyPI: filter) - so the latest rule is decided on "
           "the package, not on the match (C14_matching_latest_on_package, C14_versions_latest_position, with an example where "
           "package and match disagree about having a release); a re-addition without requirements leaves none "
-          "(C14_readd_empty_requirements)."),
+          "(C14_readd_empty_requirements); the npm requirement order is determined (independent of the order given, and of the "
+          "sorting algorithm) when no two requirements share shown name and dev-only status (C14_requirements_order_unique, "
+          "_any_sort, _order_insensitive), refuted for ties (C14_requirements_ties_refuted)."),
     note=("Trusted: Coq 8.16.1 kernel (+vm_compute), translator gotables, extraction (ExtrOcamlBasic only) and driver.ml, the "
           "Go harness and python generators/reference. The Gallina model is hand-written and validated against the "
           "implementation by execution on every run, not verified against the Go source. The semver layer enters as an "
